@@ -1,6 +1,7 @@
 """C02 — sniproxy: a connection only ever reaches the endpoint its SNI selects (DESIGN.md §7 C02)."""
 import json
 
+import code_tie
 import vlib
 
 META = {
@@ -30,6 +31,7 @@ META = {
 MODEL = ["theories/Sni/RouteCorr.vo"]
 PROOFS = ["theories/Props/C02.vo"]
 STATEMENT_FILES = ["theories/Props/C02.v", "theories/Sni/RouteGen.v"]
+SEMANTIC_TIE = code_tie.functions("C02")   # Go bodies proved equal to the model (Props/C02Code.v)
 
 CODE = {"nolookup": 1, "err": 2, "home": 3, "notfound": 5, "forward": 6, "endpoint": 7}
 
@@ -312,6 +314,7 @@ def run(ck):
         ck.discharged = list(ck.obligations)
     if ck.thorough and proofs_ok:
         ck.coqchk(["Verif.Props.C02"])
+    code_tie.run(ck, "C02")
 
     binp = ck.build_harness("c02")
     cases = []
